@@ -11,13 +11,15 @@ from vmon import core, inventory, mutate, pipeline, roundtrip
 from vmon.gen import noncanonical
 
 BUDGET = {'quick': 120, 'thorough': 3000}
+REFERENCE_BLOCKS = {'quick': 4, 'thorough': 60}     # per protocol family, 60 reference encodings each
 
 
 class Check(core.CheckBase):
     ID = 'C05'
     TECHNIQUE = 'runtime canonical-form monitor (parse/compose/parse/compose) over accepted mutants and non-canonical spellings'
     RULE = ('inputs: every valid encoding of the seed corpus, every mutant of them, generated non-canonical spellings '
-            '(date formats and zones, multi-string TXT, redundant separators, case, unknown flag bits, SCSV order); only '
+            '(date formats and zones, multi-string TXT, redundant separators, case, unknown flag bits, SCSV order), '
+            'reference encodings of generator-built values (vmon/ref, never produced by the library itself); only '
             'inputs the parser *accepts* are judged; distinct = SHA-1 of (class, accepted bytes); non-trivial = accepted')
     SHARDS = {'quick': 8, 'thorough': 16}
     ASSUMPTIONS = ('equality is structural (vmon/structural.py): same type, same fields recursively; aware datetimes '
@@ -42,6 +44,11 @@ class Check(core.CheckBase):
                 index += 1
                 if self.mine(index) and name in self.classes:
                     yield {'kind': 'noncanonical', 'cls': name, 'block': block}
+        for family in ('tls', 'ssh', 'dns', 'opp'):
+            for block in range(REFERENCE_BLOCKS[self.tier]):
+                index += 1
+                if self.mine(index):
+                    yield {'kind': 'reference', 'cls': family, 'block': block}
 
     def judge(self, case):
         if case['kind'] == 'input':
@@ -56,6 +63,14 @@ class Check(core.CheckBase):
             others = self.corpus[name] + [rng.choice(self.all_seeds) for _ in range(3)]
             for recipe, mutant in mutate.mutants(data, others, rng, budget):
                 found.extend(self.judge_input(name, mutant, str(recipe[0])))
+        elif case['kind'] == 'reference':
+            # encodings written by the independent reference encoders (vmon/ref) for generator-built values: accepted inputs
+            # that never went through the library's own compose
+            import importlib  # pylint: disable=import-outside-toplevel
+            rng = random.Random('C05/ref/%s/%s/%s' % (self.seed, name, case['block']))
+            for pair in importlib.import_module('vmon.gen.' + name).generate(rng, 60):
+                self.stats['reference_encodings'] += 1
+                found.extend(self.judge_input(inventory.class_name(pair.cls), pair.wire, 'reference:' + pair.label))
         else:
             rng = random.Random('C05/nc/%s/%s/%s' % (self.seed, name, case['block']))
             for label, data in noncanonical.generate(name, rng, 40):
@@ -83,7 +98,7 @@ class Check(core.CheckBase):
         return [self.violation(key, what, case) for key, what in results]
 
     def floors(self):
-        return {'accepted': 3000, 'accepted_noncanonical': 300, 'classes': 300}
+        return {'accepted': 3000, 'accepted_noncanonical': 300, 'classes': 300, 'reference_encodings': 400}
 
     def finish(self):
         return {'classes': sorted(self.notes.get('classes', set()))}
